@@ -482,18 +482,26 @@ func Main(r *core.Run) {
 			pairs = append(pairs, []string{keys[i], keys[j]})
 		}
 	}
-	r.Rule(fmt.Sprintf("stores {memstore, fsstore default, fsstore r122, fsstore r133 (base32 escaping)} × %d adversarial keys paired (quick: each with its 3 successors and every fifth other key; thorough: every pair) (empty, slashes, dot-dot, NUL, 255/256%s-byte, shard collisions, a key and its base32 image, .temp, CID binaries) forced through one store; explicit-state search over put/put-stream(1,2,3 chunks)/put-vec/get/get-stream/abandoned get-stream/peek/has, through the methods and the storage.* fallbacks, state = (keys stored%s), to fixpoint; full audit of both keys and a never-put key after every step; caller buffers mutated after put, returned slices mutated after get; fsstore: every path of every filesystem call logged through the os shim and checked for containment, sibling files byte-identical. Non-trivial: every transition (distinct history).", len(keys), map[bool]string{true: "", false: "/4096"}[quick], map[bool]string{true: "", false: ", last operation"}[quick]))
+	r.Rule(fmt.Sprintf("stores {memstore, fsstore default, fsstore r122, fsstore r133 (base32 escaping)} × %d adversarial keys paired (quick: each with its 3 successors and every fifth other key; thorough: every pair) (empty, slashes, dot-dot, NUL, 255/256%s-byte, shard collisions, a key and its base32 image, .temp, CID binaries) forced through one store; explicit-state search over put/put-stream(1,2,3 chunks)/put-vec/get/get-stream/abandoned get-stream/peek/has, through the methods and the storage.* fallbacks, state = (keys stored%s), to fixpoint; full audit of both keys and a never-put key after every step; caller buffers mutated after put, returned slices mutated after get; fsstore: every path of every filesystem call logged through the os shim and checked for containment, sibling files byte-identical. cidlink.Memory (keyed by multihash, own interface): every history of ≤3/≤4 writes over six links (same multihash under two codecs, CIDv0, identity multihashes incl. the empty digest, sha2-512) with a full audit after every step. Non-trivial: every transition (distinct history).", len(keys), map[bool]string{true: "", false: "/4096"}[quick], map[bool]string{true: "", false: ", last operation"}[quick]))
 	r.Assume("content-addressed use: one content per key; power loss is not modelled")
 	for _, store := range Stores {
 		store := store
 		core.ParallelFor(len(pairs), func(i int) { search(r, store, pairs[i], sorted, !quick) })
 	}
+	cidMemory(r, quick)
 	r.Sample(Case{"fsstore-default", hexs("../x", "a"), []Op{{"put", 0}, {"get", 1}}})
 	r.Sample(Case{"memstore", hexs("", "\x00"), []Op{{"f:putvec", 0}, {"f:peek", 1}, {"has", 0}}})
 }
 
 
 func Replay(r *core.Run, raw json.RawMessage) {
+	var probe struct {
+		Writes []int `json:"writes"`
+	}
+	if json.Unmarshal(raw, &probe) == nil && probe.Writes != nil {
+		replayMem(r, raw)
+		return
+	}
 	var c Case
 	if err := json.Unmarshal(raw, &c); err != nil {
 		panic(err)
